@@ -1006,6 +1006,15 @@ class Interp:
                 items, optional = src[1].items, True
             elif isinstance(src, TupleVal):
                 items = src.items
+            if isinstance(src, PathVal) and isinstance(f, tuple) and f and f[0] == "closure":
+                # `path.iter().fold(init, |acc, item| acc + g(item))` == init + sum over the elements of g: the step is applied to a
+                # fresh accumulator symbol and must be that symbol plus something that does not mention it
+                A = g_val(("$acc",))
+                step = as_poly(self.apply_fn(fr, f, [A, PathVal(("$it",))], args[2]), "fold step")
+                g = step - A
+                if "$acc" in repr(g):
+                    raise Unsupported("fold step is not `accumulator + term`")
+                return as_poly(acc, "fold initial value") + g_sum(src.path, g)
             if items is not None:
                 for item in items:
                     if optional and self.opt_cases(item) is not None:
